@@ -203,7 +203,10 @@ def main(ck):
     for c in cases:
         kb = max(1, len(c["hex"]) // 2048)
         reqs.append({"hex": c["hex"], "mode": c["mode"], "parse": True, "run": bool(c.get("run")),
-                     "budget_ms": max(2000, 250 * kb)})
+                     # parse watchdog: generous, so that it can only fire on a real hang (a parse takes milliseconds; the
+                     # parser's own no-progress guard is count-based), never because the machine is loaded.  The run budget is
+                     # short: a mutant that loops forever is counted, not reported.
+                     "budget_ms": max(30000, 2000 * kb), "run_budget_ms": 2000})
     outs = lexrun.run(binary, reqs, nproc=12)
     ck.log("real lexer + parser (+ interpreter on generated programs) ran")
 
